@@ -59,45 +59,45 @@ func def(id string, d *propertyDef) {
 
 func init() {
 	def("C01", &propertyDef{
-		Decides:    "in code reachable from the load entry points: (1) every unchecked type assertion, index and slice expression is proved safe, justified, or a listed finding (PANIC-TA, PANIC-IDX, PANIC-EXPL, lemma TAB-L1), and no function that assigns into a map parameter is handed a map that can be nil (NILMAP); (2) every recursive call cycle is a structural descent on a YAML tree or has a checked guard, every condition-less loop is inventoried (TERM, CYC); (3) the cycle guards for extends, include, aliases and depends_on are present, dominate the recursion they protect and return errors (CYC); (4) errors from reading referenced files are propagated (ERR) and, path-sensitively, no error produced by any call in the load scope reaches a return untested (ERRDROP); (5) every return of the load chain is project-xor-error (XOR); (6) each pipeline stage propagates its error and schema validation is wired after every merged document unless SkipValidation (PIPE).",
+		Decides:    "in code reachable from the load entry points: (1) every unchecked type assertion, index and slice expression is proved safe, justified, or a listed finding (PANIC-TA, PANIC-IDX, PANIC-EXPL, lemma TAB-L1), no `==` / slices.Contains / map key on two interface values that can both hold a list or a mapping (PANIC-CMP), every kind-restricted reflect.Value method is applied under a test of the receiver's kind (PANIC-REFL), the result of a function that can return (nil, nil) is dereferenced only under a nil test (NILRET), and no function that assigns into a map parameter is handed a map that can be nil (NILMAP); (2) every recursive call cycle is a structural descent on a YAML tree or has a checked guard, every condition-less loop is inventoried (TERM, CYC); (3) the cycle guards for extends, include, aliases and depends_on are present, dominate the recursion they protect and return errors (CYC); (4) errors from reading referenced files are propagated (ERR), every entry of a list of file references (env_file, label_file, configuration files, env files given to dotenv) reaches its reader on every iteration of the loop over the list, with no skipping path (REFS), and, path-sensitively, no error produced by any call in the load scope reaches a return untested (ERRDROP); (5) every return of the load chain is project-xor-error (XOR); (6) each pipeline stage propagates its error and schema validation is wired after every merged document unless SkipValidation (PIPE).",
 		NotDecided: "termination and stack bounds themselves (TERM inventories arguments); nil dereferences and nil-map writes other than through map parameters; panics inside dependencies; that an error names the missing file; recursion through function values (template substitution) is not in the static call cycles.",
-		Rules:      []string{"PANIC-TA", "PANIC-IDX", "PANIC-EXPL", "NILMAP", "TAB-L1", "TERM", "CYC", "ERR", "ERRDROP", "XOR", "PIPE"},
+		Rules:      []string{"PANIC-TA", "PANIC-IDX", "PANIC-EXPL", "PANIC-CMP", "PANIC-REFL", "NILRET", "NILMAP", "TAB-L1", "TERM", "CYC", "ERR", "ERRDROP", "REFS", "XOR", "PIPE"},
 		Run: func(c *rules.Ctx) []report.Obligation {
-			return cat(c.PanicTA("PANIC-TA", "LOAD"), c.PanicIDX("PANIC-IDX", "LOAD"), c.PanicExpl("PANIC-EXPL", "LOAD"), c.NILMAP("NILMAP", "LOAD"), c.TabL1("TAB-L1"),
-				c.TERM("TERM", "LOAD"), c.CYC("CYC"), c.ERR("ERR", "LOAD"), c.ERRDROP("ERRDROP", "LOAD"), c.XOR("XOR"), c.PIPE("PIPE", nil))
+			return cat(c.PanicTA("PANIC-TA", "LOAD"), c.PanicIDX("PANIC-IDX", "LOAD"), c.PanicExpl("PANIC-EXPL", "LOAD"), c.PanicCMP("PANIC-CMP", "LOAD"), c.PanicREFL("PANIC-REFL", "LOAD"), c.NILRET("NILRET", "LOAD"), c.NILMAP("NILMAP", "LOAD"), c.TabL1("TAB-L1"),
+				c.TERM("TERM", "LOAD"), c.CYC("CYC"), c.ERR("ERR", "LOAD"), c.ERRDROP("ERRDROP", "LOAD"), c.REFS("REFS"), c.XOR("XOR"), c.PIPE("PIPE", nil))
 		},
 	})
 	def("C02", &propertyDef{
-		Decides:    "(1) the seven first-match rule tables have pairwise non-overlapping patterns (A1); (2) no range over a map in code reachable from load / render has an order-sensitive effect that is not sorted, keyed by the iteration key, owned by the iteration value or an error-only exit (ORD); (3) no package-level variable is written after init (GLOB); (4) the raw trees stay trees: no loop stores one loop-invariant map/slice under several keys (TREE), which is what the `disjoint per key` argument of ORD and the in-place mergers rely on.",
+		Decides:    "(1) the seven first-match rule tables have pairwise non-overlapping patterns (A1); (2) no range over a map in code reachable from load / render has an order-sensitive effect that is not sorted, keyed by the iteration key, owned by the iteration value or an error-only exit (ORD); (3) no package-level variable is written after init (GLOB); (4) the raw trees stay trees: no loop stores one loop-invariant map/slice under several keys (TREE), which is what the `disjoint per key` argument of ORD and the in-place mergers rely on; (5) the memoised result of an extends chain is never merged into: the base handed to ExtendService is a fresh deep clone, so the outcome does not depend on which service of the file is visited first (EXT-1).",
 		NotDecided: "determinism of dependencies (yaml/json encoders sorting keys is trusted); OS and file-system nondeterminism; the order in which listeners / visitors are called; which error message is returned when several entries are invalid.",
-		Rules:      []string{"A1", "ORD", "GLOB", "TREE"},
+		Rules:      []string{"A1", "ORD", "GLOB", "TREE", "EXT-1"},
 		Run: func(c *rules.Ctx) []report.Obligation {
-			return cat(c.A1("A1", allTables...), c.ORD("ORD", "LOAD", "RENDER"), c.GLOB("GLOB"), c.TREE("TREE", "LOAD"))
+			return cat(c.A1("A1", allTables...), c.ORD("ORD", "LOAD", "RENDER"), c.GLOB("GLOB"), c.TREE("TREE", "LOAD"), rules.OnlyRule(c.EXT("EXT"), "EXT-1"))
 		},
 	})
 	def("C03", &propertyDef{
-		Decides:    "form coverage: for every attribute path of schema/compose-spec.json and every YAML kind the schema admits there, the code that consumes it has an arm for that kind: the canonical transformer registered for the path, else the custom decoder of the model type, else the plain Go kind under strict mapstructure + the repo's cast hook (A3); every schema attribute has a model field (A7); every transformer row denotes a schema path (A2).",
-		NotDecided: "that two spellings produce equal values: port-range pairing, bind-vs-volume classification, KEY=VALUE splitting, durations, byte sizes and shell-word splitting are value-level grammars; rejection of near-miss strings.",
-		Rules:      []string{"A3", "A7", "A2"},
+		Decides:    "form coverage: for every attribute path of schema/compose-spec.json and every YAML kind the schema admits there, the code that consumes it has an arm for that kind: the canonical transformer registered for the path, else the custom decoder of the model type, else the plain Go kind under strict mapstructure + the repo's cast hook (A3); every schema attribute has a model field (A7); every transformer row denotes a schema path (A2); the bind-vs-volume decision of the volume short syntax is controlled by conditions computed from the source only (CLASSIFY).",
+		NotDecided: "that two spellings produce equal values: port-range pairing, what counts as a path in the bind-vs-volume classification, KEY=VALUE splitting, durations, byte sizes and shell-word splitting are value-level grammars; rejection of near-miss strings.",
+		Rules:      []string{"A3", "A7", "A2", "CLASSIFY"},
 		Run: func(c *rules.Ctx) []report.Obligation {
-			return cat(c.A3("A3"), c.A7("A7"), c.A2("A2", rules.TTransform))
+			return cat(c.A3("A3"), c.A7("A7"), c.A2("A2", rules.TTransform), c.CLASSIFY("CLASSIFY"))
 		},
 	})
 	def("C04", &propertyDef{
 		Decides:    "merge coverage (A4): every attribute below services/networks/volumes/secrets/configs that the schema lets be spelled as list-or-mapping or string-or-list has a converting merger; every uniqueItems list is de-duplicated after the append (unicity indexer, mapping-producing or replacing merger); command, entrypoint and healthcheck.test are bound to the replacing merger; each indexer has an arm for every item kind. The two tables are exclusive and have no dead rows (A1, A2). Stage order Apply(!reset) < Merge < EnforceUnicity < validate < Canonical < EnforceUnicity holds on every path and each stage's error is propagated (PIPE); every YAML document of a file runs through the pipeline (MULTIDOC).",
 		NotDecided: "the merged values themselves; `!reset` inside sequences; that what a later file does not mention is preserved.",
-		Rules:      []string{"A4", "A1", "A2", "PIPE", "MULTIDOC"},
+		Rules:      []string{"A4", "A1", "A2", "PIPE", "MULTIDOC", "TREEPATH", "TREE"},
 		Run: func(c *rules.Ctx) []report.Obligation {
-			return cat(c.A4("A4"), c.A1("A1", rules.TMerge, rules.TUnique), c.A2("A2", rules.TMerge, rules.TUnique),
+			return cat(c.A4("A4"), c.TREEPATH("TREEPATH"), c.TREE("TREE", "LOAD"), c.A1("A1", rules.TMerge, rules.TUnique), c.A2("A2", rules.TMerge, rules.TUnique),
 				c.PIPE("PIPE", stageIn("Apply", "override.Merge", "override.EnforceUnicity", "schema.Validate", "transform.Canonical", "loader.OmitEmpty")), c.MULTIDOC("MULTIDOC"))
 		},
 	})
 	def("C05", &propertyDef{
 		Decides:    "in the function that calls override.ExtendService: the base is a fresh deep clone (ownership analysis of deepClone), every return of the merged service is dominated by delete(merged,\"extends\") and by the memoising store, missing bases have error returns, the other file is loaded with ResolvePaths=false and resolved once against loader.Dir(refPath) on every success path, ApplyExtends stores the result for every service (EXT); the recursion is guarded by a successful cycleTracker.Add (CYC).",
 		NotDecided: "that the result equals base-then-local by the override rules (merge values); per-attribute path anchoring.",
-		Rules:      []string{"EXT", "CYC"},
+		Rules:      []string{"EXT", "CYC", "TREEPATH"},
 		Run: func(c *rules.Ctx) []report.Obligation {
-			return cat(c.EXT("EXT"), rules.Only(c.CYC("CYC"), "extends ::"))
+			return cat(c.EXT("EXT"), rules.Only(c.CYC("CYC"), "extends ::"), c.TREEPATH("TREEPATH"))
 		},
 	})
 	def("C06", &propertyDef{
@@ -110,35 +110,35 @@ func init() {
 		},
 	})
 	def("C07", &propertyDef{
-		Decides:    "the operator table, the operator class of the braced-substitution regex and the separator each bound function partitions on agree row by row (TPL-1); defaults, replacements and error messages go through Substitute (TPL-2); no value obtained from the variable mapping flows back into the template argument of Substitute*/ReplaceAllStringFunc (TPL-3); an empty name yields InvalidTemplateError (TPL-4); index/slice/assertion safety in packages template and interpolation (PANIC-IDX, PANIC-TA).",
+		Decides:    "the operator table, the operator class of the braced-substitution regex and the separator each bound function partitions on agree row by row (TPL-1); defaults, replacements and error messages go through Substitute (TPL-2); no value obtained from the variable mapping flows back into the template argument of Substitute*/ReplaceAllStringFunc (TPL-3); an empty name yields InvalidTemplateError (TPL-4); index/slice/assertion safety in packages template and interpolation (PANIC-IDX, PANIC-TA); Substitute keeps no state: no package-level variable of template / interpolation is written after init, directly or through a copy of its slice header, map or pointer (GLOB).",
 		NotDecided: "the semantics of each operator (set/unset/empty tables), brace matching, first-operator-wins, verbatim copying of literal text: value-level. This is the narrowest claim of the set.",
-		Rules:      []string{"TPL", "PANIC-IDX", "PANIC-TA"},
+		Rules:      []string{"TPL", "PANIC-IDX", "PANIC-TA", "GLOB"},
 		Run: func(c *rules.Ctx) []report.Obligation {
-			return cat(c.TPL("TPL"), c.PanicIDX("PANIC-IDX", "TEMPLATE"), c.PanicTA("PANIC-TA", "TEMPLATE"))
+			return cat(c.TPL("TPL"), c.PanicIDX("PANIC-IDX", "TEMPLATE"), c.PanicTA("PANIC-TA", "TEMPLATE"), rules.Only(c.GLOB("GLOB"), "template.", "interpolation.", "inventory"))
 		},
 	})
 	def("C08", &propertyDef{
 		Decides:    "recursiveInterpolate substitutes only in the string arm, stores mapping values under the unchanged range key and returns other scalars unchanged (INT-1); for every schema path that admits a string beside a typed scalar and whose model type is a Go scalar, a string is convertible: cast-table row of a fitting kind, decode-time hook covering the Go kind, or a decoder with a string arm, and every cast row names an existing path of a fitting kind (A5); the cast table is exclusive (A1); no substituted value re-enters substitution, so a `$` inside a value or an already interpolated default is not expanded again (TPL-3).",
 		NotDecided: "`$$` escaping equivalence; that both mechanisms convert a text to the same value; error text naming the path.",
-		Rules:      []string{"INT-1", "A5", "A1", "TPL-3"},
+		Rules:      []string{"INT-1", "A5", "A1", "TPL-3", "TREEPATH"},
 		Run: func(c *rules.Ctx) []report.Obligation {
-			return cat(c.INT1("INT-1"), c.A5("A5"), c.A1("A1", rules.TCast), rules.OnlyRule(c.TPL("TPL"), "TPL-3"))
+			return cat(c.INT1("INT-1"), c.A5("A5"), c.A1("A1", rules.TCast), rules.OnlyRule(c.TPL("TPL"), "TPL-3"), c.TREEPATH("TREEPATH"))
 		},
 	})
 	def("C09", &propertyDef{
-		Decides:    "every model field has equal yaml and json keys (or json \"-\"); a type has both or neither of MarshalYAML/MarshalJSON; the kind a custom MarshalYAML emits is admitted by the schema where the type is used (A6); every schema attribute has a model field (A7); Project.MarshalJSON enumerates the resource kinds of the struct (A10); renderers and the parsers that read them back agree on their literal separators and host lists are sorted (CODEC).",
-		NotDecided: "equality of the reloaded project; byte-identity of a second rendering beyond map order.",
-		Rules:      []string{"A6", "A7", "A10", "CODEC"},
+		Decides:    "every model field has equal yaml and json keys (or json \"-\"); a type has both or neither of MarshalYAML/MarshalJSON; the kind a custom MarshalYAML emits is admitted by the schema where the type is used (A6); every schema attribute has a model field (A7); Project.MarshalJSON enumerates the resource kinds of the struct (A10); renderers and the parsers that read them back agree on their literal separators and host lists are sorted (CODEC); rendering leaves the project untouched: MarshalYAML / MarshalJSON and what they call write nothing reachable from the receiver, so a second rendering starts from the same project (IMM-I1).",
+		NotDecided: "equality of the reloaded project; byte-identity of a second rendering beyond map order and receiver immutability.",
+		Rules:      []string{"A6", "A7", "A10", "CODEC", "IMM-I1"},
 		Run: func(c *rules.Ctx) []report.Obligation {
-			return cat(c.A6("A6"), c.A7("A7"), c.A10("A10"), c.CODEC("CODEC"))
+			return cat(c.A6("A6"), c.A7("A7"), c.A10("A10"), c.CODEC("CODEC"), c.IMMRender("IMM"))
 		},
 	})
 	def("C10", &propertyDef{
-		Decides:    "checkConsistency has an error return that depends on the model fields of each of the 20 rules of the statement (INV) and ends in graph.CheckCycle; searchCycle is guarded by path membership and errors on a hit (CYC); checkConsistency runs unless SkipConsistencyCheck and validation.Validate unless SkipValidation, errors propagated (PIPE); validation.checks rows denote schema paths and are exclusive (A1, A2).",
+		Decides:    "checkConsistency has an error return that depends on the model fields of each of the 20 rules of the statement (INV) and ends in graph.CheckCycle; searchCycle is guarded by path membership and errors on a hit (CYC); checkConsistency runs unless SkipConsistencyCheck and validation.Validate unless SkipValidation, errors propagated (PIPE); the switches are the caller's: loader.Options fields are written only by option setters or on an Options value the function created / cloned, never through a *Options received from the caller (GATEW); validation.checks rows denote schema paths and are exclusive (A1, A2).",
 		NotDecided: "that each condition is the right condition (an inverted comparison survives); acceptance implies consistency for fragments arriving through override / extends / include.",
-		Rules:      []string{"INV", "CYC", "PIPE", "A1", "A2"},
+		Rules:      []string{"INV", "CYC", "PIPE", "GATEW", "A1", "A2"},
 		Run: func(c *rules.Ctx) []report.Obligation {
-			return cat(c.INV("INV"), rules.Only(c.CYC("CYC"), "depends_on ::"), c.PIPE("PIPE", stageIn("loader.checkConsistency", "validation.Validate")),
+			return cat(c.INV("INV"), rules.Only(c.CYC("CYC"), "depends_on ::"), c.PIPE("PIPE", stageIn("loader.checkConsistency", "validation.Validate")), c.GATEW("GATEW"),
 				c.A1("A1", rules.TChecks), c.A2("A2", rules.TChecks))
 		},
 	})
@@ -154,9 +154,9 @@ func init() {
 	def("C12", &propertyDef{
 		Decides:    "each path-bearing attribute named by the statement matches exactly one resolver row and no resolver sits on another attribute (A9); resolver patterns are exclusive and denote schema paths (A1, A2); each origin resolves against its own base: main files against config.WorkingDir gated by ResolvePaths, included projects against loader.Dir / project_directory (ORIGIN), extended files against loader.Dir(refPath) with the nested load not resolving (EXT-5).",
 		NotDecided: "absolute / remote / Windows detection, `~` expansion, idempotence: value-level string predicates.",
-		Rules:      []string{"A9", "A1", "A2", "ORIGIN", "EXT-5", "PIPE"},
+		Rules:      []string{"A9", "A1", "A2", "ORIGIN", "EXT-5", "PIPE", "TREEPATH"},
 		Run: func(c *rules.Ctx) []report.Obligation {
-			return cat(c.A9("A9"), c.A1("A1", rules.TResolvers), c.A2("A2", rules.TResolvers), c.ORIGIN("ORIGIN"), rules.OnlyRule(c.EXT("EXT"), "EXT-5"),
+			return cat(c.A9("A9"), c.TREEPATH("TREEPATH"), c.A1("A1", rules.TResolvers), c.A2("A2", rules.TResolvers), c.ORIGIN("ORIGIN"), rules.OnlyRule(c.EXT("EXT"), "EXT-5"),
 				c.PIPE("PIPE", stageIn("paths.ResolveRelativePaths")))
 		},
 	})
@@ -207,7 +207,7 @@ func init() {
 		NotDecided: "that the returned map is the grammar's (quoting, escapes, inline comments, lookup precedence): needs a reference evaluator.",
 		Rules:      []string{"PANIC-IDX", "PANIC-TA", "PANIC-EXPL", "TERM", "ERRRET", "ERRDROP"},
 		Run: func(c *rules.Ctx) []report.Obligation {
-			return cat(c.PanicIDX("PANIC-IDX", "DOTENV"), c.PanicTA("PANIC-TA", "DOTENV"), c.PanicExpl("PANIC-EXPL", "DOTENV"), c.TERM("TERM", "DOTENV"), c.ERRRET("ERRRET"), c.ERRDROP("ERRDROP", "DOTENV"))
+			return cat(c.PanicIDX("PANIC-IDX", "DOTENV"), c.PanicTA("PANIC-TA", "DOTENV"), c.PanicExpl("PANIC-EXPL", "DOTENV"), c.TERM("TERM", "DOTENV"), c.ERRRET("ERRRET"), c.ERRDROP("ERRDROP", "DOTENV"), c.REFS("REFS", "dotenv"))
 		},
 	})
 	def("C19", &propertyDef{
